@@ -15,6 +15,7 @@ import (
 	"github.com/postalsys/muti-metroo/internal/identity"
 	"github.com/postalsys/muti-metroo/internal/peer"
 	"github.com/postalsys/muti-metroo/internal/protocol"
+	"github.com/postalsys/muti-metroo/internal/routing"
 )
 
 // Op `walk <maxHops> <x> <p0-p1-...-pk>` of the flood engines (used by C12): agent x holds a learned
@@ -28,8 +29,104 @@ import (
 // a socket: that answer is the proof that the open reached the origin's exit handling.
 //
 //	-> r=walk reached:<pk> | r=walk refused:<agent>:<code> | r=walk lost:<agent>
+//
+// Op `uwalk <maxHops> <x> <p0-...-pk>`: the same for UDP_OPEN, and here the ingress frame is built by
+// the REAL ingress code (Agent.createDestAssociation through the accessor agent.C12UDPOpen, i.e. the
+// remaining-path computation itself is exercised) on a real agent x. The advertising agent has the
+// UDP relay disabled: its handleUDPOpen answers ErrUDPDisabled for an open addressed to it (empty
+// remaining path) — exit-side handling reached, no socket involved.
 func init() {
 	c11ExtraOps["walk"] = c12Walk
+	c11ExtraOps["uwalk"] = c12UWalk
+}
+
+func c12UWalk(f []string) string {
+	if len(f) != 4 {
+		return "r=bad"
+	}
+	mh, err1 := strconv.Atoi(f[1])
+	x, err2 := strconv.Atoi(f[2])
+	if err1 != nil || err2 != nil || mh < 0 || x < 0 || x > 250 {
+		return "r=bad"
+	}
+	var path []int
+	for _, t := range strings.Split(f[3], "-") {
+		v, err := strconv.Atoi(t)
+		if err != nil || v < 0 || v > 250 || v == x {
+			return "r=bad"
+		}
+		path = append(path, v)
+	}
+	if len(path) == 0 || len(path) > 40 {
+		return "r=bad"
+	}
+	origin := path[len(path)-1]
+	worlds := map[int]*c16World{}
+	defer func() {
+		for _, w := range worlds {
+			w.close()
+		}
+	}()
+	seq := append([]int{x}, path...)
+	for _, j := range seq {
+		if worlds[j] == nil {
+			worlds[j] = c12NewWorld(j, mh, false)
+		}
+	}
+	for i := 0; i < len(seq); i++ {
+		w := worlds[seq[i]]
+		if i > 0 {
+			w.connect(seq[i-1]+1, false)
+		}
+		if i+1 < len(seq) {
+			w.connect(seq[i+1]+1, true)
+		}
+	}
+	// the ingress: real createDestAssociation on the learned route
+	ids := make([]identity.AgentID, len(path))
+	for i, p := range path {
+		ids[i] = c16ID(p + 1)
+	}
+	route := &routing.Route{NextHop: ids[0], OriginAgent: ids[len(ids)-1], Path: ids, Metric: uint16(len(ids))}
+	agent.C12UDPOpen(worlds[x].a, route)
+	var frame *protocol.Frame
+	for _, s := range worlds[x].drain() {
+		if s.f.Type == protocol.FrameUDPOpen && s.peer == path[0]+1 {
+			frame = s.f
+		}
+	}
+	if frame == nil {
+		return fmt.Sprintf("r=walk lost:%d", x)
+	}
+	from := x
+	for i := 0; i < len(path); i++ {
+		cur := path[i]
+		w := worlds[cur]
+		w.drain()
+		agent.C16Process(w.a, c16ID(from+1), frame)
+		last := i == len(path)-1
+		var next *protocol.Frame
+		for _, s := range w.drain() {
+			switch {
+			case s.f.Type == protocol.FrameUDPOpenErr && s.peer == from+1:
+				e, err := protocol.DecodeUDPOpenErr(s.f.Payload)
+				if err != nil {
+					return fmt.Sprintf("r=walk lost:%d", cur)
+				}
+				if last && e.ErrorCode == protocol.ErrUDPDisabled {
+					return fmt.Sprintf("r=walk reached:%d", cur)
+				}
+				return fmt.Sprintf("r=walk refused:%d:%d", cur, e.ErrorCode)
+			case s.f.Type == protocol.FrameUDPOpen && !last && s.peer == path[i+1]+1:
+				next = s.f
+			}
+		}
+		if next == nil {
+			return fmt.Sprintf("r=walk lost:%d", cur)
+		}
+		frame, from = next, cur
+	}
+	return "r=walk lost:" + strconv.Itoa(origin)
 }
 
 func c12NewWorld(idx, maxHops int, isExit bool) *c16World {
@@ -44,6 +141,7 @@ func c12NewWorld(idx, maxHops int, isExit bool) *c16World {
 	} else {
 		cfg.Routing.MaxHops = 255
 	}
+	cfg.UDP.Enabled = false
 	if isExit {
 		cfg.Exit.Enabled = true
 		cfg.Exit.Routes = []string{"127.0.0.0/8"}
